@@ -1,5 +1,680 @@
-//! C10 — not built yet.
-#![allow(unused)]
+//! C10 — optimisers (Adam, SGD, Levenberg-Marquardt): objective programs as ASTs interpreted over
+//! `reverse::Var`, case generation for the Coq correspondence, and the failure-search oracle.
+#![allow(clippy::needless_range_loop)]
 use crate::util::*;
-pub fn gen(_tier: &str, _seed: u64, _outdir: &str) { eprintln!("C10: gen not implemented"); std::process::exit(3); }
-pub fn oracle(_tier: &str, _seed: u64) -> (u64, Vec<Finding>) { eprintln!("C10: oracle not implemented"); std::process::exit(3); }
+use compute::linalg::{Dot, Matrix, Solve, Vector};
+use compute::optimize::{Adam, Gradient, Optimizer, Tape, Var, LM, SGD};
+
+// ---------------------------------------------------------------------------------------------
+// objective programs
+#[derive(Clone, Debug)]
+pub enum C { Lit(f64), Dat(usize, usize) }
+#[derive(Clone, Copy, Debug, PartialEq)]
+pub enum U { Exp, Sin, Cos, Ln, Sqrt, Recip, Tanh }
+#[derive(Clone, Debug)]
+pub enum E {
+    Par(usize), Var(usize), Let(Box<E>, Box<E>),
+    Add(Box<E>, Box<E>), AddC(Box<E>, C), Sub(Box<E>, Box<E>), SubC(Box<E>, C), CSub(C, Box<E>),
+    Mul(Box<E>, Box<E>), MulC(Box<E>, C), Div(Box<E>, Box<E>), DivC(Box<E>, C), CDiv(C, Box<E>),
+    Neg(Box<E>), Powi(Box<E>, i32), Fn(U, Box<E>),
+}
+fn b(e: E) -> Box<E> { Box::new(e) }
+
+fn cv(c: &C, d: &[&[f64]]) -> f64 { match c { C::Lit(x) => *x, C::Dat(i, j) => d[*i][*j] } }
+
+/// the program over `reverse::Var` (operands left to right, then the operator)
+fn ev<'a>(e: &E, p: &[Var<'a>], env: &mut Vec<Var<'a>>, d: &[&[f64]]) -> Var<'a> {
+    match e {
+        E::Par(i) => p[*i],
+        E::Var(k) => { let n = env.len(); if *k >= n { panic!("unbound") } env[n - 1 - *k] }
+        E::Let(a, bb) => { let va = ev(a, p, env, d); env.push(va); let r = ev(bb, p, env, d); env.pop(); r }
+        E::Add(x, y) => { let a = ev(x, p, env, d); let c = ev(y, p, env, d); a + c }
+        E::AddC(x, c) => { let a = ev(x, p, env, d); a + cv(c, d) }
+        E::Sub(x, y) => { let a = ev(x, p, env, d); let c = ev(y, p, env, d); a - c }
+        E::SubC(x, c) => { let a = ev(x, p, env, d); a - cv(c, d) }
+        E::CSub(c, x) => { let k = cv(c, d); let a = ev(x, p, env, d); k - a }
+        E::Mul(x, y) => { let a = ev(x, p, env, d); let c = ev(y, p, env, d); a * c }
+        E::MulC(x, c) => { let a = ev(x, p, env, d); a * cv(c, d) }
+        E::Div(x, y) => { let a = ev(x, p, env, d); let c = ev(y, p, env, d); a / c }
+        E::DivC(x, c) => { let a = ev(x, p, env, d); a / cv(c, d) }
+        E::CDiv(c, x) => { let k = cv(c, d); let a = ev(x, p, env, d); k / a }
+        E::Neg(x) => -ev(x, p, env, d),
+        E::Powi(x, n) => ev(x, p, env, d).powi(*n),
+        E::Fn(u, x) => { let a = ev(x, p, env, d); match u { U::Exp => a.exp(), U::Sin => a.sin(), U::Cos => a.cos(), U::Ln => a.ln(), U::Sqrt => a.sqrt(), U::Recip => a.recip(), U::Tanh => a.tanh() } }
+    }
+}
+fn objective<'a>(e: &E, p: &[Var<'a>], d: &[&[f64]]) -> Var<'a> { let mut env = Vec::new(); ev(e, p, &mut env, d) }
+
+/// forward-mode (dual numbers) evaluation: value and gradient, independent of `reverse`
+#[derive(Clone)]
+struct D { v: f64, g: Vec<f64> }
+fn dun(a: &D, v: f64, w: f64) -> D { D { v, g: a.g.iter().map(|x| w * x).collect() } }
+fn dbin(a: &D, c: &D, v: f64, wa: f64, wc: f64) -> D { D { v, g: a.g.iter().zip(&c.g).map(|(x, y)| wa * x + wc * y).collect() } }
+fn evd(e: &E, p: &[D], env: &mut Vec<D>, d: &[&[f64]]) -> D {
+    match e {
+        E::Par(i) => p[*i].clone(),
+        E::Var(k) => env[env.len() - 1 - *k].clone(),
+        E::Let(a, bb) => { let va = evd(a, p, env, d); env.push(va); let r = evd(bb, p, env, d); env.pop(); r }
+        E::Add(x, y) => { let a = evd(x, p, env, d); let c = evd(y, p, env, d); dbin(&a, &c, a.v + c.v, 1., 1.) }
+        E::AddC(x, c) => { let a = evd(x, p, env, d); dun(&a, a.v + cv(c, d), 1.) }
+        E::Sub(x, y) => { let a = evd(x, p, env, d); let c = evd(y, p, env, d); dbin(&a, &c, a.v - c.v, 1., -1.) }
+        E::SubC(x, c) => { let a = evd(x, p, env, d); dun(&a, a.v - cv(c, d), 1.) }
+        E::CSub(c, x) => { let a = evd(x, p, env, d); dun(&a, cv(c, d) - a.v, -1.) }
+        E::Mul(x, y) => { let a = evd(x, p, env, d); let c = evd(y, p, env, d); dbin(&a, &c, a.v * c.v, c.v, a.v) }
+        E::MulC(x, c) => { let a = evd(x, p, env, d); let k = cv(c, d); dun(&a, a.v * k, k) }
+        E::Div(x, y) => { let a = evd(x, p, env, d); let c = evd(y, p, env, d); dbin(&a, &c, a.v / c.v, 1. / c.v, -a.v / (c.v * c.v)) }
+        E::DivC(x, c) => { let a = evd(x, p, env, d); let k = cv(c, d); dun(&a, a.v / k, 1. / k) }
+        E::CDiv(c, x) => { let a = evd(x, p, env, d); let k = cv(c, d); dun(&a, k / a.v, -k / (a.v * a.v)) }
+        E::Neg(x) => { let a = evd(x, p, env, d); dun(&a, -a.v, -1.) }
+        E::Powi(x, n) => { let a = evd(x, p, env, d); dun(&a, a.v.powi(*n), *n as f64 * a.v.powi(*n - 1)) }
+        E::Fn(u, x) => { let a = evd(x, p, env, d); match u {
+            U::Exp => dun(&a, a.v.exp(), a.v.exp()), U::Sin => dun(&a, a.v.sin(), a.v.cos()), U::Cos => dun(&a, a.v.cos(), -a.v.sin()),
+            U::Ln => dun(&a, a.v.ln(), 1. / a.v), U::Sqrt => dun(&a, a.v.sqrt(), 0.5 / a.v.sqrt()), U::Recip => dun(&a, 1. / a.v, -1. / (a.v * a.v)),
+            U::Tanh => dun(&a, a.v.tanh(), 1. - a.v.tanh() * a.v.tanh()) } }
+    }
+}
+fn dual(e: &E, x: &[f64], d: &[&[f64]]) -> (f64, Vec<f64>) {
+    let n = x.len();
+    let p: Vec<D> = (0..n).map(|i| D { v: x[i], g: (0..n).map(|j| if i == j { 1. } else { 0. }).collect() }).collect();
+    let r = evd(e, &p, &mut vec![], d); (r.v, r.g)
+}
+fn has_cdiv(e: &E) -> bool {
+    match e {
+        E::Par(_) | E::Var(_) => false, E::CDiv(..) => true,
+        E::Let(a, c) | E::Add(a, c) | E::Sub(a, c) | E::Mul(a, c) | E::Div(a, c) => has_cdiv(a) || has_cdiv(c),
+        E::AddC(a, _) | E::SubC(a, _) | E::CSub(_, a) | E::MulC(a, _) | E::DivC(a, _) | E::Neg(a) | E::Powi(a, _) | E::Fn(_, a) => has_cdiv(a),
+    }
+}
+fn uses_libm(e: &E) -> bool {
+    match e {
+        E::Par(_) | E::Var(_) => false,
+        E::Fn(u, a) => !matches!(u, U::Sqrt | U::Recip) || uses_libm(a),
+        E::Let(a, c) | E::Add(a, c) | E::Sub(a, c) | E::Mul(a, c) | E::Div(a, c) => uses_libm(a) || uses_libm(c),
+        E::AddC(a, _) | E::SubC(a, _) | E::CSub(_, a) | E::MulC(a, _) | E::DivC(a, _) | E::CDiv(_, a) | E::Neg(a) | E::Powi(a, _) => uses_libm(a),
+    }
+}
+
+// ---- Coq terms
+fn ctm(c: &C) -> Tm { match c { C::Lit(x) => app("CLit", vec![Tm::F(*x)]), C::Dat(i, j) => app("CDat", vec![Tm::Nat(*i as u64), Tm::Nat(*j as u64)]) } }
+fn etm(e: &E) -> Tm {
+    match e {
+        E::Par(i) => app("EPar", vec![Tm::Nat(*i as u64)]), E::Var(k) => app("EVar", vec![Tm::Nat(*k as u64)]),
+        E::Let(a, c) => app("ELet", vec![etm(a), etm(c)]), E::Add(a, c) => app("EAdd", vec![etm(a), etm(c)]),
+        E::AddC(a, c) => app("EAddC", vec![etm(a), ctm(c)]), E::Sub(a, c) => app("ESub", vec![etm(a), etm(c)]),
+        E::SubC(a, c) => app("ESubC", vec![etm(a), ctm(c)]), E::CSub(c, a) => app("ECSub", vec![ctm(c), etm(a)]),
+        E::Mul(a, c) => app("EMul", vec![etm(a), etm(c)]), E::MulC(a, c) => app("EMulC", vec![etm(a), ctm(c)]),
+        E::Div(a, c) => app("EDiv", vec![etm(a), etm(c)]), E::DivC(a, c) => app("EDivC", vec![etm(a), ctm(c)]),
+        E::CDiv(c, a) => app("ECDiv", vec![ctm(c), etm(a)]), E::Neg(a) => app("ENeg", vec![etm(a)]),
+        E::Powi(a, n) => app("EPowi", vec![etm(a), Tm::Z(*n as i64)]),
+        E::Fn(u, a) => app("EFn", vec![Tm::Raw(match u { U::Exp => "UExp", U::Sin => "USin", U::Cos => "UCos", U::Ln => "ULn", U::Sqrt => "USqrt", U::Recip => "URecip", U::Tanh => "UTanh" }.into()), etm(a)]),
+    }
+}
+fn data_tm(d: &[Vec<f64>]) -> Tm { Tm::L(d.iter().map(|r| fl(r)).collect()) }
+fn runs_tm(rs: &[(usize, Result<Vec<f64>, String>)]) -> Tm { Tm::L(rs.iter().map(|(k, r)| Tm::Tup(vec![Tm::Nat(*k as u64), outcome_list(r)])).collect()) }
+fn refs(d: &[Vec<f64>]) -> Vec<&[f64]> { d.iter().map(|r| r.as_slice()).collect() }
+
+// ---- silence the eprintln! of Adam/SGD while the implementation runs
+extern "C" { fn dup(fd: i32) -> i32; fn dup2(a: i32, b: i32) -> i32; fn open(path: *const u8, flags: i32, ...) -> i32; fn close(fd: i32) -> i32; }
+struct Quiet(i32);
+impl Quiet {
+    fn new() -> Self { unsafe { let saved = dup(2); let n = open(b"/dev/null\0".as_ptr(), 1); if n >= 0 { dup2(n, 2); close(n); } Quiet(saved) } }
+}
+impl Drop for Quiet { fn drop(&mut self) { unsafe { if self.0 >= 0 { dup2(self.0, 2); close(self.0); } } } }
+
+// ---------------------------------------------------------------------------------------------
+// program families
+fn lit(r: &mut Rng) -> f64 {
+    match r.below(8) { 0 => r.small_int(4), 1 => 0.5, 2 => 2.0, 3 => -1.5, _ => (r.uniform(-3.0, 3.0) * 64.0).round() / 64.0 + if r.coin(0.5) { r.uniform(-1e-3, 1e-3) } else { 0.0 } }
+}
+fn sum_chain(mut ts: Vec<E>) -> E { let mut acc = ts.remove(0); for t in ts { acc = E::Add(b(acc), b(t)); } acc }
+
+/// sum_i a_i (x_i - c_i)^2 + sum_{i<j} b_ij x_i x_j ; convex when the cross terms are small
+fn quadratic(r: &mut Rng, n: usize, convex: bool) -> E {
+    let mut ts = vec![];
+    for i in 0..n {
+        let a = if convex { r.uniform(0.2, 3.0) } else { r.uniform(-1.0, 3.0) };
+        let c = r.uniform(-2.0, 2.0);
+        let sq = E::Powi(b(E::SubC(b(E::Par(i)), C::Lit(c))), 2);
+        ts.push(if r.coin(0.5) { E::MulC(b(sq), C::Lit(a)) } else { E::Mul(b(E::MulC(b(E::SubC(b(E::Par(i)), C::Lit(c))), C::Lit(a))), b(E::SubC(b(E::Par(i)), C::Lit(c)))) });
+    }
+    for i in 0..n { for j in (i + 1)..n { if r.coin(0.4) {
+        let bb = if convex { r.uniform(-0.15, 0.15) } else { r.uniform(-1.5, 1.5) };
+        ts.push(E::MulC(b(E::Mul(b(E::Par(i)), b(E::Par(j)))), C::Lit(bb)));
+    } } }
+    sum_chain(ts)
+}
+/// (a - x)^2 + b (y - x^2)^2 with a = data[0][0], b = data[0][1]
+fn rosenbrock() -> E {
+    E::Add(b(E::Powi(b(E::CSub(C::Dat(0, 0), b(E::Par(0)))), 2)),
+           b(E::MulC(b(E::Powi(b(E::Sub(b(E::Par(1)), b(E::Powi(b(E::Par(0)), 2)))), 2)), C::Dat(0, 1))))
+}
+/// curve models m(p; x) with x given by the constant `x`
+fn curve(kind: usize, x: C) -> (E, usize) {
+    match kind {
+        0 => (E::Add(b(E::Par(0)), b(E::MulC(b(E::Par(1)), x))), 2),                                       // p0 + p1 x
+        1 => (E::Mul(b(E::Par(0)), b(E::Fn(U::Exp, b(E::MulC(b(E::Par(1)), x))))), 2),                      // p0 exp(p1 x)
+        2 => (logistic(x), 3),
+        3 => (E::Add(b(E::MulC(b(E::Fn(U::Sin, b(E::MulC(b(E::Par(0)), x.clone())))), C::Lit(1.0))), b(E::Powi(b(E::Par(1)), 3))), 2),   // sin(p0 x) + p1^3
+        4 => (E::Add(b(E::Add(b(E::Par(0)), b(E::MulC(b(E::Par(1)), x.clone())))), b(E::Mul(b(E::Par(2)), b(E::Powi(b(E::AddC(b(E::MulC(b(E::Par(0)), C::Lit(0.0))), x)), 2))))), 3), // p0 + p1 x + p2 x^2
+        5 => (E::DivC(b(E::Par(0)), C::Lit(1.0)), 1),                                                     // p0
+        _ => (E::Div(b(E::MulC(b(E::Par(0)), x.clone())), b(E::AddC(b(E::Powi(b(E::Par(1)), 2)), C::Lit(1.0)))), 2), // p0 x / (1 + p1^2)
+    }
+}
+/// logistic curve with all parameters identifiable: p0 / (1 + exp(-p1 (x - p2)))
+fn logistic(x: C) -> E {
+    E::Div(b(E::Par(0)), b(E::AddC(b(E::Fn(U::Exp, b(E::Neg(b(E::Mul(b(E::Par(1)), b(E::CSub(x, b(E::Neg(b(E::Neg(b(E::Par(2)))))))))))))), C::Lit(1.0))))
+}
+/// least-squares loss sum_i (m(p; x_i) - y_i)^2 over data[0] = xs, data[1] = ys
+fn ls_loss(kind: usize, n: usize) -> (E, usize) {
+    let mut ts = vec![]; let mut np = 0;
+    for i in 0..n { let (m, k) = if kind == 7 { (logistic(C::Dat(0, i)), 3) } else { curve(kind, C::Dat(0, i)) }; np = k; ts.push(E::Powi(b(E::SubC(b(m), C::Dat(1, i))), 2)); }
+    (sum_chain(ts), np)
+}
+/// arbitrary program: every node kind, sharing through let
+fn random_expr(r: &mut Rng, depth: u32, np: usize, nlet: usize, drows: &[usize], libm: bool) -> E {
+    if depth == 0 || r.coin(0.15) {
+        return if nlet > 0 && r.coin(0.3) { E::Var(r.below(nlet as u64) as usize) } else { E::Par(r.below(np as u64) as usize) };
+    }
+    let c = |r: &mut Rng| -> C { if !drows.is_empty() && r.coin(0.25) { let i = r.below(drows.len() as u64) as usize; C::Dat(i, r.below(drows[i] as u64) as usize) } else { C::Lit(lit(r)) } };
+    let d = depth - 1;
+    match r.below(if libm { 20 } else { 17 }) {
+        0 => E::Add(b(random_expr(r, d, np, nlet, drows, libm)), b(random_expr(r, d, np, nlet, drows, libm))),
+        1 => { let k = c(r); E::AddC(b(random_expr(r, d, np, nlet, drows, libm)), k) }
+        2 => E::Sub(b(random_expr(r, d, np, nlet, drows, libm)), b(random_expr(r, d, np, nlet, drows, libm))),
+        3 => { let k = c(r); E::SubC(b(random_expr(r, d, np, nlet, drows, libm)), k) }
+        4 => { let k = c(r); E::CSub(k, b(random_expr(r, d, np, nlet, drows, libm))) }
+        5 | 6 => E::Mul(b(random_expr(r, d, np, nlet, drows, libm)), b(random_expr(r, d, np, nlet, drows, libm))),
+        7 => { let k = c(r); E::MulC(b(random_expr(r, d, np, nlet, drows, libm)), k) }
+        8 => E::Div(b(random_expr(r, d, np, nlet, drows, libm)), b(random_expr(r, d, np, nlet, drows, libm))),
+        9 => { let k = c(r); E::DivC(b(random_expr(r, d, np, nlet, drows, libm)), k) }
+        10 => { let k = c(r); E::CDiv(k, b(random_expr(r, d, np, nlet, drows, libm))) }
+        11 => E::Neg(b(random_expr(r, d, np, nlet, drows, libm))),
+        12 | 13 => E::Powi(b(random_expr(r, d, np, nlet, drows, libm)), *r.pick(&[2, 2, 3, 4, 1, 0, -1, -2, 5, 7])),
+        14 => E::Let(b(random_expr(r, d, np, nlet, drows, libm)), b(random_expr(r, d, np, nlet + 1, drows, libm))),
+        15 => E::Fn(U::Sqrt, b(random_expr(r, d, np, nlet, drows, libm))),
+        16 => E::Fn(U::Recip, b(random_expr(r, d, np, nlet, drows, libm))),
+        17 => E::Fn(*r.pick(&[U::Exp, U::Tanh]), b(random_expr(r, d, np, nlet, drows, libm))),
+        18 => E::Fn(*r.pick(&[U::Sin, U::Cos]), b(random_expr(r, d, np, nlet, drows, libm))),
+        _ => E::Fn(U::Ln, b(random_expr(r, d, np, nlet, drows, libm))),
+    }
+}
+
+fn special(r: &mut Rng) -> f64 {
+    *r.pick(&[0.0, -0.0, 1.0, -1.0, f64::INFINITY, f64::NEG_INFINITY, f64::NAN, 5e-324, -5e-324, 2.2250738585072014e-308, 1e308, -1e308, 1e-200, 0.5])
+}
+
+// ---------------------------------------------------------------------------------------------
+// running the implementation
+fn grad_impl(e: &E, d: &[Vec<f64>], x: &[f64], la: bool) -> Result<Vec<f64>, String> {
+    let dr = refs(d);
+    catch(|| {
+        let tape = Tape::new();
+        let ps = tape.add_vars(x);
+        if la {
+            // Nesterov's look-ahead nodes `*p - momentum * u` with momentum * u = 0: value p + (-0.) = p
+            let fs = ps.iter().map(|p| *p - 0.0).collect::<Vec<_>>();
+            let res = objective(e, &fs, &dr);
+            let mut out = vec![res.val()]; out.extend(res.grad().wrt(&fs)); out
+        } else {
+            let res = objective(e, &ps, &dr);
+            let mut out = vec![res.val()]; out.extend(res.grad().wrt(&ps)); out
+        }
+    })
+}
+fn adam_impl(e: &E, d: &[Vec<f64>], hp: (f64, f64, f64, f64), x: &[f64], k: usize) -> Result<Vec<f64>, String> {
+    let dr = refs(d);
+    catch(|| { let o = Adam::new(hp.0, hp.1, hp.2, hp.3); o.optimize(|p, dd| objective(e, p, dd), x, &dr, k).v })
+}
+fn sgd_impl(e: &E, d: &[Vec<f64>], hp: (f64, f64, bool), x: &[f64], k: usize) -> Result<Vec<f64>, String> {
+    let dr = refs(d);
+    catch(|| { let o = SGD::new(hp.0, hp.1, hp.2); o.optimize(|p, dd| objective(e, p, dd), x, &dr, k).v })
+}
+fn lm_impl(e: &E, d: &[Vec<f64>], hp: (f64, f64, f64), x: &[f64], k: usize) -> Result<Vec<f64>, String> {
+    let dr = refs(d);
+    catch(|| { let o = LM::new(hp.0, hp.1, hp.2); let (p, c) = o.optimize(|p, dd| objective(e, p, dd), x, &dr, k); let mut v = p.v; v.extend_from_slice(&c.data); v })
+}
+
+type Solves = Vec<(Vec<f64>, Vec<f64>, Vec<f64>)>;
+type Invs = Vec<(Vec<f64>, Vec<f64>)>;
+fn same_bits(a: &[f64], c: &[f64]) -> bool { a.len() == c.len() && a.iter().zip(c).all(|(x, y)| x.to_bits() == y.to_bits() || (x.is_nan() && y.is_nan())) }
+/// The dataflow of `LM::optimize` replayed through the crate's own `Matrix`/`Vector`/`Solve` API on a
+/// private tape, only to record the inputs and outputs of the inner calls `damped.solve(jtr)` and
+/// `jtj.inv()` (the Coq model answers them from these tables, keyed bitwise by the inputs it computed
+/// itself; a replay that strays from the real run yields table misses, i.e. a disagreement).
+fn lm_record(e: &E, d: &[Vec<f64>], hp: (f64, f64, f64), x0: &[f64], maxsteps: usize, solves: &mut Solves, invs: &mut Invs) {
+    let _ = catch(|| {
+        if d.len() != 2 || d[0].len() != d[1].len() { return; }
+        let (eps1, eps2, tau) = hp;
+        let tape = Tape::new();
+        let (xs, ys) = (&d[0], &d[1]);
+        let n = xs.len(); let p = x0.len();
+        let mut params = tape.add_vars(x0);
+        let mut res = Vector::zeros(0); let mut grad: Vec<f64> = vec![];
+        for (&x, &y) in xs.iter().zip(ys) {
+            let val = objective(e, &params, &[&[x]]);
+            res.push((y - val).val()); grad.extend(val.grad().wrt(&params));
+        }
+        let mut jac = Matrix::new(grad, n as i32, p as i32);
+        let mut jtj = jac.t_dot(&jac);
+        let mut jtr = jac.t_dot(&res).to_matrix();
+        let mut mu = tau * jtj.diag().max(); let mut nu = 2.;
+        let mut stop = jtr.inf_norm() <= eps1;
+        let mut step = 0;
+        loop {
+            step += 1;
+            if step > maxsteps || stop { break; }
+            let mut damped = jtj.clone();
+            for i in 0..p { damped[[i, i]] += mu * jtj[[i, i]]; }
+            let delta = damped.solve(jtr.data());
+            if !solves.iter().any(|s| same_bits(&s.0, &damped.data) && same_bits(&s.1, &jtr.data().v)) {
+                solves.push((damped.data.to_vec(), jtr.data().v.clone(), delta.v.clone()));
+            }
+            stop = delta.norm() <= eps2 * (params.iter().map(|x| x.val()).collect::<Vector>().norm() + eps2);
+            if stop { break; }
+            let newp = params.iter().zip(&delta).map(|(&x, &dd)| x + dd).collect::<Vec<_>>();
+            let new_res: Vector = xs.iter().zip(ys).map(|(&x, y)| y - objective(e, &newp, &[&[x]]).val()).collect();
+            let pred = delta.t_dot(mu * &delta + jtr.data());
+            let rho = (res.dot(&res) - new_res.dot(&new_res)) / (0.5 * pred);
+            if rho > 0. {
+                params.copy_from_slice(&newp);
+                let ng = xs.iter().map(|&x| { let r = objective(e, &newp, &[&[x]]); Vector::from(r.grad().wrt(&newp)) }).flatten().collect::<Vector>();
+                jac = Matrix::new(ng, n as i32, p as i32);
+                jtj = jac.t_dot(&jac); jtr = jac.t_dot(&new_res).to_matrix(); res = new_res;
+                stop = jtr.inf_norm() <= eps1;
+                if stop { break; }
+                mu *= f64::max(1. / 3., 1. - (2. * rho - 1.).powi(3)); nu = 2.;
+            } else { mu *= nu; nu *= 2.; }
+            let vals: Vec<f64> = params.iter().map(|x| x.val()).collect();
+            tape.clear();
+            params = tape.add_vars(&vals);
+        }
+        let ji = jtj.inv();
+        if !invs.iter().any(|s| same_bits(&s.0, &jtj.data)) { invs.push((jtj.data.to_vec(), ji.data.to_vec())); }
+    });
+}
+
+fn ks_for(r: &mut Rng, kmax: usize, dense: usize, extra: usize) -> Vec<usize> {
+    let mut ks: Vec<usize> = (0..=dense.min(kmax)).collect();
+    for _ in 0..extra { ks.push(1 + r.below(kmax as u64) as usize); }
+    ks.push(kmax); ks.sort(); ks.dedup(); ks
+}
+fn changing(rs: &[(usize, Result<Vec<f64>, String>)]) -> bool {
+    // at least two iterations with a changing state: three distinct outcomes along the step budget
+    let mut seen: Vec<&Vec<f64>> = vec![];
+    for (_, r) in rs { if let Ok(v) = r { if !seen.iter().any(|s| same_bits(s, v)) { seen.push(v); } } }
+    seen.len() >= 3
+}
+
+struct Prob { e: E, d: Vec<Vec<f64>>, x0: Vec<f64>, tag: &'static str }
+fn problem(r: &mut Rng, which: u64) -> Prob {
+    match which {
+        0 => { let n = 1 + r.below(8) as usize; Prob { e: quadratic(r, n, true), d: vec![], x0: (0..n).map(|_| r.uniform(-3.0, 3.0)).collect(), tag: "quad-convex" } }
+        1 => { let n = 1 + r.below(8) as usize; Prob { e: quadratic(r, n, false), d: vec![], x0: (0..n).map(|_| r.uniform(-3.0, 3.0)).collect(), tag: "quad-nonconvex" } }
+        2 => Prob { e: rosenbrock(), d: vec![vec![1.0, if r.coin(0.5) { 100.0 } else { r.uniform(1.0, 100.0) }]], x0: vec![r.uniform(-1.5, 1.5), r.uniform(-1.0, 2.0)], tag: "rosenbrock" },
+        3 => {
+            let kind = *r.pick(&[0usize, 1, 3, 4, 6, 7]); let n = 3 + r.below(6) as usize;
+            let (e, np) = ls_loss(kind, n);
+            let xs: Vec<f64> = (0..n).map(|i| i as f64 * 0.5 + r.uniform(-0.1, 0.1)).collect();
+            let truth: Vec<f64> = (0..np).map(|_| r.uniform(0.3, 1.5)).collect();
+            let ys: Vec<f64> = xs.iter().map(|&x| { let m = if kind == 7 { logistic(C::Lit(x)) } else { curve(kind, C::Lit(x)).0 }; dual(&m, &truth, &[]).0 + 0.05 * r.normal() }).collect();
+            Prob { e, d: vec![xs, ys], x0: (0..np).map(|_| r.uniform(0.2, 1.2)).collect(), tag: "least-squares" }
+        }
+        _ => {
+            let np = 1 + r.below(4) as usize; let libm = r.coin(0.5);
+            let d: Vec<Vec<f64>> = if r.coin(0.5) { vec![(0..3).map(|_| lit(r)).collect(), (0..2).map(|_| lit(r)).collect()] } else { vec![] };
+            let rows: Vec<usize> = d.iter().map(|x| x.len()).collect();
+            let depth = 2 + r.below(4) as u32;
+            Prob { e: random_expr(r, depth, np, 0, &rows, libm), d, x0: (0..np).map(|_| r.uniform(-2.0, 2.0)).collect(), tag: if libm { "random-ast-libm" } else { "random-ast" } }
+        }
+    }
+}
+
+fn lm_problem(r: &mut Rng, nmax: usize) -> (E, Vec<Vec<f64>>, Vec<f64>, &'static str) {
+    let x = C::Dat(0, 0);
+    let which = r.below(8);
+    let (e, np, tag): (E, usize, &'static str) = match which {
+        0 | 1 => { let (e, k) = curve(0, x); (e, k, "lm-linear") }
+        2 => { let (e, k) = curve(4, x); (e, k, "lm-quadratic-in-x") }
+        3 | 4 => { let (e, k) = curve(1, x); (e, k, "lm-exponential") }
+        5 => (logistic(x), 3, "lm-logistic"),
+        6 => { let (e, k) = curve(6, x); (e, k, "lm-rational") }
+        _ => { let (e, k) = curve(5, x); (e, k, "lm-constant") }
+    };
+    let n = 5.max(np) + r.below((nmax - 4) as u64) as usize;
+    let xs: Vec<f64> = (0..n).map(|i| (i as f64) * (4.0 / n as f64) + r.uniform(-0.05, 0.05) - if which == 5 { 2.0 } else { 0.0 }).collect();
+    let truth: Vec<f64> = match which { 3 | 4 => vec![r.uniform(0.5, 2.0), r.uniform(-0.8, 0.6)], 5 => vec![r.uniform(1.0, 3.0), r.uniform(0.8, 2.0), r.uniform(-0.5, 0.5)], _ => (0..np).map(|_| r.uniform(-2.0, 2.0)).collect() };
+    let noise = *r.pick(&[0.0, 0.01, 0.1]);
+    let ys: Vec<f64> = xs.iter().map(|&xv| dual(&e, &truth, &[&[xv]]).0 + noise * r.normal()).collect();
+    let x0: Vec<f64> = truth.iter().map(|t| if r.coin(0.5) { t + r.uniform(-1.0, 1.0) } else { r.uniform(-3.0, 3.0) }).collect();
+    (e, vec![xs, ys], x0, tag)
+}
+
+// ---------------------------------------------------------------------------------------------
+pub fn gen(tier: &str, seed: u64, outdir: &str) {
+    let mut r = Rng::new(seed ^ 0xC10);
+    let mut cs = Cases::new("C10");
+    let thorough = tier == "thorough";
+    let _q = Quiet::new();
+
+    // 1. the tape itself: value and gradient of random programs (leaf and look-ahead parameters)
+    let ngrad = if thorough { 4000 } else { 500 };
+    for it in 0..ngrad {
+        let mut p = problem(&mut r, if it % 3 == 0 { it as u64 % 4 } else { 4 });
+        if it % 7 == 3 { let i = r.below(p.x0.len() as u64) as usize; p.x0[i] = special(&mut r); }
+        if it % 11 == 5 { for v in p.x0.iter_mut() { *v = special(&mut r); } }
+        let la = r.coin(0.3);
+        crate::libm::start();
+        let out = grad_impl(&p.e, &p.d, &p.x0, la);
+        let t = crate::libm::stop();
+        let nt = out.as_ref().map(|v| v.iter().skip(1).any(|g| *g != 0.0 && g.is_finite())).unwrap_or(false);
+        cs.push(app("CGrad", vec![etm(&p.e), data_tm(&p.d), fl(&p.x0), Tm::B(la), outcome_list(&out), libm_table(&t)]), &format!("grad/{}{}", p.tag, if la { "/lookahead" } else { "" }), nt);
+    }
+    // malformed programs: parameter / data / let index out of range, no parameters
+    for it in 0..(if thorough { 200 } else { 40 }) {
+        let np = r.below(3) as usize;
+        let e = match it % 4 { 0 => E::Add(b(E::Par(np)), b(E::Par(0))), 1 => E::AddC(b(E::Par(0)), C::Dat(1, 0)), 2 => E::Mul(b(E::Par(0)), b(E::Var(0))), _ => E::Let(b(E::Par(0)), b(E::Add(b(E::Var(0)), b(E::Var(1))))) };
+        let x0: Vec<f64> = (0..np).map(|_| r.uniform(-1.0, 1.0)).collect();
+        let d = vec![vec![1.0]];
+        let out = grad_impl(&e, &d, &x0, false);
+        cs.push(app("CGrad", vec![etm(&e), data_tm(&d), fl(&x0), Tm::B(false), outcome_list(&out), libm_table(&Default::default())]), "grad/malformed", out.is_err());
+        let rs: Vec<_> = [0usize, 1, 3].iter().map(|&k| (k, adam_impl(&e, &d, (0.1, 0.9, 0.999, 1e-8), &x0, k))).collect();
+        cs.push(app("CAdam", vec![etm(&e), data_tm(&d), Tm::F(0.1), Tm::F(0.9), Tm::F(0.999), Tm::F(1e-8), fl(&x0), runs_tm(&rs), libm_table(&Default::default())]), "adam/malformed", true);
+        let rs: Vec<_> = [0usize, 2].iter().map(|&k| (k, sgd_impl(&e, &d, (0.1, 0.5, it % 2 == 0), &x0, k))).collect();
+        cs.push(app("CSgd", vec![etm(&e), data_tm(&d), Tm::F(0.1), Tm::F(0.5), Tm::B(it % 2 == 0), fl(&x0), runs_tm(&rs), libm_table(&Default::default())]), "sgd/malformed", true);
+    }
+
+    // 2. Adam and SGD trajectories: every step budget k in a dense prefix plus sampled k up to kmax
+    let nopt = if thorough { 600 } else { 90 };
+    let kmax = if thorough { 2000 } else { 200 };
+    for it in 0..nopt {
+        let p = problem(&mut r, (it as u64) % 5);
+        let libm = uses_libm(&p.e);
+        let full = it < 6;   // all k in 1..=200 (quick) / 1..=300 (thorough)
+        let km = if libm { 60 } else { kmax };
+        let ks = if full { ks_for(&mut r, if thorough { 300 } else { 200 }.min(km), km, 0) } else { ks_for(&mut r, km, if libm { 6 } else { 12 }, 4) };
+        // Adam
+        let step = *r.pick(&[1e-4, 1e-3, 0.01, 0.1, 0.5]); let b1 = *r.pick(&[0.9, 0.5, 0.99, 0.1]); let b2 = *r.pick(&[0.999, 0.9, 0.5, 0.99]);
+        let eps = *r.pick(&[1e-8, 1e-8, 1e-3, 0.0]);
+        crate::libm::start();
+        let rs: Vec<_> = ks.iter().map(|&k| (k, adam_impl(&p.e, &p.d, (step, b1, b2, eps), &p.x0, k))).collect();
+        let t = crate::libm::stop();
+        cs.push(app("CAdam", vec![etm(&p.e), data_tm(&p.d), Tm::F(step), Tm::F(b1), Tm::F(b2), Tm::F(eps), fl(&p.x0), runs_tm(&rs), libm_table(&t)]), &format!("adam/{}", p.tag), changing(&rs));
+        // SGD: plain, momentum, Nesterov
+        let (mom, nest) = match it % 3 { 0 => (0.0, false), 1 => (*r.pick(&[0.5, 0.9, 0.99]), false), _ => (*r.pick(&[0.5, 0.9, 0.99]), true) };
+        let step = *r.pick(&[1e-4, 1e-3, 0.01, 0.05, 0.1]);
+        crate::libm::start();
+        let rs: Vec<_> = ks.iter().map(|&k| (k, sgd_impl(&p.e, &p.d, (step, mom, nest), &p.x0, k))).collect();
+        let t = crate::libm::stop();
+        cs.push(app("CSgd", vec![etm(&p.e), data_tm(&p.d), Tm::F(step), Tm::F(mom), Tm::B(nest), fl(&p.x0), runs_tm(&rs), libm_table(&t)]),
+                &format!("sgd/{}/{}", if nest { "nesterov" } else if mom != 0.0 { "momentum" } else { "plain" }, p.tag), changing(&rs));
+    }
+    // early stopping: objectives on which the iteration becomes stationary or flips sign (D22)
+    for it in 0..(if thorough { 60 } else { 16 }) {
+        let x = *r.pick(&[1.0, -3.0, 0.75, 1e-3]);
+        // f = c x^2 with step*2c = 2: x -> -x ; with step*2c = 1: x -> 0 (stationary after one step)
+        let (c, step) = match it % 4 { 0 => (2.0, 0.5), 1 => (1.0, 0.5), 2 => (4.0, 0.25), _ => (0.5, 0.25) };
+        let e = E::MulC(b(E::Powi(b(E::Par(0)), 2)), C::Lit(c));
+        let ks: Vec<usize> = (0..=6).collect();
+        let nest = it % 8 >= 4;
+        let rs: Vec<_> = ks.iter().map(|&k| (k, sgd_impl(&e, &[], (step, 0.0, nest), &[x], k))).collect();
+        cs.push(app("CSgd", vec![etm(&e), data_tm(&[]), Tm::F(step), Tm::F(0.0), Tm::B(nest), fl(&[x]), runs_tm(&rs), libm_table(&Default::default())]), "sgd/early-stop", true);
+        // Adam with a huge epsilon stalls: the update underflows relative to the parameter
+        let rs: Vec<_> = ks.iter().map(|&k| (k, adam_impl(&e, &[], (1e-3, 0.9, 0.999, 1e20), &[x], k))).collect();
+        cs.push(app("CAdam", vec![etm(&e), data_tm(&[]), Tm::F(1e-3), Tm::F(0.9), Tm::F(0.999), Tm::F(1e20), fl(&[x]), runs_tm(&rs), libm_table(&Default::default())]), "adam/early-stop", true);
+    }
+    // Adam::new rejects non-positive betas
+    for (b1, b2) in [(0.0, 0.9), (0.9, 0.0), (-0.5, 0.9), (0.9, f64::NAN), (f64::NAN, 0.5), (1.0, 1.0), (1.5, 0.9)] {
+        let e = E::Powi(b(E::Par(0)), 2);
+        let rs: Vec<_> = [0usize, 1, 3].iter().map(|&k| (k, adam_impl(&e, &[], (0.1, b1, b2, 1e-8), &[1.0], k))).collect();
+        cs.push(app("CAdam", vec![etm(&e), data_tm(&[]), Tm::F(0.1), Tm::F(b1), Tm::F(b2), Tm::F(1e-8), fl(&[1.0]), runs_tm(&rs), libm_table(&Default::default())]), "adam/betas", true);
+    }
+
+    // 3. Levenberg-Marquardt (inner solves recorded)
+    let nlm = if thorough { 300 } else { 50 };
+    for it in 0..nlm {
+        let (e, d, x0, tag) = lm_problem(&mut r, if thorough && it % 10 == 0 { 60 } else { 24 });
+        let hp = if it % 5 == 0 { (1e-6, 1e-6, 1e-2) } else { (*r.pick(&[1e-6, 1e-3, 1e-9]), *r.pick(&[1e-6, 1e-3, 1e-10]), *r.pick(&[1e-2, 1e-3, 1.0, 1e-6])) };
+        let ks = ks_for(&mut r, if thorough { 60 } else { 30 }, if it < 4 { 30 } else { 4 }, 2);
+        let (mut solves, mut invs) = (vec![], vec![]);
+        crate::libm::start();
+        let rs: Vec<_> = ks.iter().map(|&k| (k, lm_impl(&e, &d, hp, &x0, k))).collect();
+        for &k in &ks { lm_record(&e, &d, hp, &x0, k, &mut solves, &mut invs); }
+        let t = crate::libm::stop();
+        let st = Tm::L(solves.iter().map(|(a, bb, x)| Tm::Tup(vec![fl(a), fl(bb), fl(x)])).collect());
+        let it_ = Tm::L(invs.iter().map(|(a, x)| Tm::Tup(vec![fl(a), fl(x)])).collect());
+        cs.push(app("CLm", vec![etm(&e), data_tm(&d), Tm::F(hp.0), Tm::F(hp.1), Tm::F(hp.2), fl(&x0), runs_tm(&rs), st, it_, libm_table(&t)]), tag, changing(&rs));
+    }
+    // malformed LM calls: wrong number of data slices, unequal lengths, no points, no parameters
+    for it in 0..(if thorough { 40 } else { 12 }) {
+        let (e, mut d, mut x0, _) = lm_problem(&mut r, 8);
+        match it % 4 { 0 => { d.pop(); } 1 => { d[1].pop(); } 2 => { d[0].clear(); d[1].clear(); } _ => { x0.clear(); } }
+        let hp = (1e-6, 1e-6, 1e-2);
+        let (mut solves, mut invs) = (vec![], vec![]);
+        let rs: Vec<_> = [0usize, 2].iter().map(|&k| (k, lm_impl(&e, &d, hp, &x0, k))).collect();
+        for k in [0usize, 2] { lm_record(&e, &d, hp, &x0, k, &mut solves, &mut invs); }
+        let st = Tm::L(solves.iter().map(|(a, bb, x)| Tm::Tup(vec![fl(a), fl(bb), fl(x)])).collect());
+        let it_ = Tm::L(invs.iter().map(|(a, x)| Tm::Tup(vec![fl(a), fl(x)])).collect());
+        cs.push(app("CLm", vec![etm(&e), data_tm(&d), Tm::F(hp.0), Tm::F(hp.1), Tm::F(hp.2), fl(&x0), runs_tm(&rs), st, it_, libm_table(&Default::default())]), "lm/malformed", true);
+    }
+    drop(_q);
+    cs.write(outdir, if thorough { 40 } else { 25 },
+             "objective programs as ASTs over reverse::Var (random convex / non-convex quadratics in 1..8 dimensions, Rosenbrock, least-squares losses with exp/sin/powi/division nodes, arbitrary random ASTs over every node kind with let-sharing, special values in the parameters for the gradient cases); Adam and SGD (plain / momentum / Nesterov) compared for every step budget k of a dense prefix (all k up to 200 resp. 300 for six problems) plus sampled k up to 200 (quick) / 2000 (thorough); LM on linear, quadratic, exponential, logistic, rational and constant curve fits with 5..24 (60) points and poor starts, inner LU solves recorded and keyed bitwise; malformed streams (index out of range, no parameters, non-positive betas, wrong data shapes); non-trivial = at least three distinct parameter vectors along the step budgets (two iterations with a changing state), a finite non-zero gradient entry (gradient cases), or a rejected call; distinct by hash of the case term");
+}
+
+// ---------------------------------------------------------------------------------------------
+// failure-search oracle: the property statement against the implementation only
+const EPS: f64 = f64::EPSILON;
+fn tape_grad(e: &E, d: &[&[f64]], x: &[f64]) -> Vec<f64> {
+    let tape = Tape::new(); let ps = tape.add_vars(x); let r = objective(e, &ps, d); r.grad().wrt(&ps)
+}
+/// "the parameters have stopped changing": every coordinate moved by less than 2^-52 relative to the
+/// smaller magnitude (absolute when a coordinate is zero), sign included
+fn stopped(new: &[f64], old: &[f64]) -> bool {
+    new.iter().zip(old).all(|(a, c)| { let s = if *a == 0.0 || *c == 0.0 { 1.0 } else { a.abs().min(c.abs()) }; (a - c).abs() <= EPS * s || (a.is_nan() && c.is_nan()) })
+}
+/// Kingma-Ba with bias correction, plain Rust, no stopping
+fn adam_ref(e: &E, d: &[&[f64]], hp: (f64, f64, f64, f64), x0: &[f64], k: usize) -> Vec<Vec<f64>> {
+    let (a, b1, b2, eps) = hp; let n = x0.len();
+    let (mut m, mut v, mut th) = (vec![0.0; n], vec![0.0; n], x0.to_vec());
+    let mut out = vec![th.clone()];
+    for t in 1..=k {
+        let g = tape_grad(e, d, &th);
+        for i in 0..n {
+            m[i] = b1 * m[i] + (1. - b1) * g[i];
+            v[i] = b2 * v[i] + (1. - b2) * g[i] * g[i];
+            let mh = m[i] / (1. - b1.powi(t as i32)); let vh = v[i] / (1. - b2.powi(t as i32));
+            th[i] -= a * mh / (vh.sqrt() + eps);
+        }
+        out.push(th.clone());
+    }
+    out
+}
+/// v_t = mom v_{t-1} + step grad(theta - [nesterov] mom v_{t-1}); theta_t = theta_{t-1} - v_t
+fn sgd_ref(e: &E, d: &[&[f64]], hp: (f64, f64, bool), x0: &[f64], k: usize) -> Vec<Vec<f64>> {
+    let (a, mom, nest) = hp; let n = x0.len();
+    let (mut u, mut th) = (vec![0.0; n], x0.to_vec());
+    let mut out = vec![th.clone()];
+    for _ in 1..=k {
+        let at: Vec<f64> = if nest { (0..n).map(|i| th[i] - mom * u[i]).collect() } else { th.clone() };
+        let g = tape_grad(e, d, &at);
+        for i in 0..n { u[i] = mom * u[i] + a * g[i]; th[i] -= u[i]; }
+        out.push(th.clone());
+    }
+    out
+}
+fn judge(name: &str, got: &Result<Vec<f64>, String>, traj: &[Vec<f64>], k: usize, input: &str, out: &mut Vec<Finding>) {
+    // a trajectory that left the finite range is outside the property (and inf/NaN gradients differ between leaf and look-ahead nodes)
+    if traj[..=k].iter().any(|t| t.iter().any(|x| !x.is_finite())) { return; }
+    match got {
+        Err(m) => out.push(Finding { class: format!("{}:panics", name), what: format!("{} panicked on a well-formed call: {}", name, m), input: input.into() }),
+        Ok(v) => {
+            if same_bits(v, &traj[k]) { return; }
+            let matches: Vec<usize> = (1..k).filter(|&j| same_bits(v, &traj[j])).collect();
+            match matches.first() {
+                None => out.push(Finding { class: format!("{}:not-kth-iterate", name), what: format!("{} with budget {} returned {:?}; the published recurrence gives {:?} and no earlier iterate matches", name, k, v, traj[k]), input: input.into() }),
+                // (an orbit may revisit a point: accept if the stop is justified at any of the matching steps)
+                Some(&j) => if !matches.iter().any(|&j| stopped(&traj[j], &traj[j - 1])) {
+                    out.push(Finding { class: format!("{}:early-stop-while-changing", name), what: format!("{} with budget {} stopped after step {} at {:?} although the previous iterate was {:?} (the parameters were still changing; iterate {} is {:?})", name, k, j, traj[j], traj[j - 1], k, traj[k]), input: input.into() });
+                },
+            }
+        }
+    }
+}
+
+fn rss(e: &E, xs: &[f64], ys: &[f64], p: &[f64]) -> f64 { xs.iter().zip(ys).map(|(&x, &y)| { let r = y - dual(e, p, &[&[x]]).0; r * r }).sum() }
+/// Gauss-Jordan inverse with partial pivoting (reference for the covariance clause)
+fn inv_ref(a: &[f64], n: usize) -> Option<Vec<f64>> {
+    let mut m = vec![0.0; n * 2 * n];
+    for i in 0..n { for j in 0..n { m[i * 2 * n + j] = a[i * n + j]; } m[i * 2 * n + n + i] = 1.0; }
+    for c in 0..n {
+        let piv = (c..n).max_by(|&i, &j| m[i * 2 * n + c].abs().partial_cmp(&m[j * 2 * n + c].abs()).unwrap_or(std::cmp::Ordering::Equal))?;
+        if m[piv * 2 * n + c].abs() < 1e-300 { return None; }
+        for j in 0..2 * n { m.swap(c * 2 * n + j, piv * 2 * n + j); }
+        let pv = m[c * 2 * n + c];
+        for j in 0..2 * n { m[c * 2 * n + j] /= pv; }
+        for i in 0..n { if i != c { let f = m[i * 2 * n + c]; if f != 0.0 { for j in 0..2 * n { m[i * 2 * n + j] -= f * m[c * 2 * n + j]; } } } }
+    }
+    Some((0..n).flat_map(|i| (0..n).map(move |j| (i, j))).map(|(i, j)| m[i * 2 * n + n + j]).collect())
+}
+
+pub fn oracle(tier: &str, seed: u64) -> (u64, Vec<Finding>) {
+    let mut r = Rng::new(seed ^ 0x0C10);
+    let mut out = vec![]; let mut tried = 0u64;
+    let thorough = tier == "thorough";
+    let _q = Quiet::new();
+    let fmt_in = |e: &E, d: &[Vec<f64>], x0: &[f64]| format!("objective={} data={} start={}", etm(e).to_string(), d.iter().map(|x| json_floats(x)).collect::<Vec<_>>().join(","), json_floats(x0));
+
+    // D22 family first: f = c x^2 with step * 2c = 2 maps x to -x
+    for (c, step, x) in [(2.0, 0.5, 1.0), (2.0, 0.5, -3.0), (4.0, 0.25, 0.75), (1.0, 1.0, 2.5)] {
+        let e = E::MulC(b(E::Powi(b(E::Par(0)), 2)), C::Lit(c));
+        for nest in [false, true] { for k in [2usize, 3, 4, 10] {
+            tried += 1;
+            let input = format!("{} SGD::new({:e}, 0, {}) maxsteps={}", fmt_in(&e, &[], &[x]), step, nest, k);
+            crumb(&input);
+            let traj = sgd_ref(&e, &[], (step, 0.0, nest), &[x], k);
+            let got = sgd_impl(&e, &[], (step, 0.0, nest), &[x], k);
+            judge("sgd", &got, &traj, k, &input, &mut out);
+        } }
+    }
+    // Adam: one coordinate flips sign exactly when alpha * mhat / (sqrt(vhat) + eps) = 2 theta: at t = 1, mhat/sqrt(vhat) = sign(g),
+    // so theta_0 = alpha / 2 with eps = 0 and a gradient of the sign of theta_0 gives theta_1 = -theta_0
+    for a in [0.5, 0.125, 1e-3] {
+        let e = E::Powi(b(E::Par(0)), 2);
+        for k in [2usize, 3, 5] {
+            tried += 1;
+            let input = format!("{} Adam::new({:e}, 0.9, 0.999, 0) maxsteps={}", fmt_in(&e, &[], &[a / 2.0]), a, k);
+            crumb(&input);
+            let traj = adam_ref(&e, &[], (a, 0.9, 0.999, 0.0), &[a / 2.0], k);
+            let got = adam_impl(&e, &[], (a, 0.9, 0.999, 0.0), &[a / 2.0], k);
+            judge("adam", &got, &traj, k, &input, &mut out);
+        }
+    }
+
+    let iters = if thorough { 1500 } else { 160 };
+    let kmax = if thorough { 2000 } else { 200 };
+    for it in 0..iters {
+        let p = problem(&mut r, (it as u64) % 5);
+        let dr = refs(&p.d);
+        // the tape's gradient against forward-mode differentiation (the recurrences below take the tape's gradient as grad f)
+        if it % 2 == 0 {
+            tried += 1;
+            crumb(&format!("{} (gradient on the tape)", fmt_in(&p.e, &p.d, &p.x0)));
+            let g = catch(|| tape_grad(&p.e, &dr, &p.x0)); let (_, gd) = dual(&p.e, &p.x0, &dr);
+            if let Ok(g) = g {
+                let bad = g.iter().zip(&gd).any(|(a, c)| a.is_finite() && c.is_finite() && (a - c).abs() > 1e-6 * (1.0 + a.abs().max(c.abs())));
+                if bad { out.push(Finding { class: if has_cdiv(&p.e) { "reverse:gradient-of-const-over-var".into() } else { "reverse:gradient-wrong".into() },
+                    what: format!("reverse's gradient {:?} differs from forward-mode differentiation {:?}", g, gd), input: fmt_in(&p.e, &p.d, &p.x0) }); }
+            }
+        }
+        let k = if it % 4 == 0 { kmax } else { 1 + r.below(60) as usize };
+        let k = if uses_libm(&p.e) { k.min(200) } else { k };
+        let step = *r.pick(&[1e-4, 1e-3, 0.01, 0.1, 0.5]); let b1 = r.uniform(0.05, 0.99); let b2 = r.uniform(0.05, 0.9999);
+        let hp = (step, b1, b2, *r.pick(&[1e-8, 1e-8, 0.0, 1e-3]));
+        let input = format!("{} Adam::new({:e}, {:e}, {:e}, {:e})", fmt_in(&p.e, &p.d, &p.x0), hp.0, hp.1, hp.2, hp.3);
+        crumb(&format!("{} maxsteps={}", input, k));
+        let traj = adam_ref(&p.e, &dr, hp, &p.x0, k);
+        for kk in [k, 1 + r.below(k as u64) as usize, 1] {
+            tried += 1;
+            let inp = format!("{} maxsteps={}", input, kk);
+            crumb(&inp);
+            let got = adam_impl(&p.e, &p.d, hp, &p.x0, kk);
+            judge("adam", &got, &traj, kk, &inp, &mut out);
+            if kk == k { let again = adam_impl(&p.e, &p.d, hp, &p.x0, kk); if let (Ok(a), Ok(c)) = (&got, &again) { if !same_bits(a, c) { out.push(Finding { class: "adam:nondeterministic".into(), what: "two identical calls returned different parameters".into(), input: input.clone() }); } } }
+        }
+        let (mom, nest) = match it % 3 { 0 => (0.0, false), 1 => (r.uniform(0.0, 0.99), false), _ => (r.uniform(0.0, 0.99), true) };
+        let hs = (*r.pick(&[1e-4, 1e-3, 0.01, 0.05, 0.5]), mom, nest);
+        let input = format!("{} SGD::new({:e}, {:e}, {})", fmt_in(&p.e, &p.d, &p.x0), hs.0, hs.1, hs.2);
+        crumb(&format!("{} maxsteps={}", input, k));
+        let traj = sgd_ref(&p.e, &dr, hs, &p.x0, k);
+        for kk in [k, 1 + r.below(k as u64) as usize, 2] {
+            let kk = kk.min(k); tried += 1;
+            let inp = format!("{} maxsteps={}", input, kk);
+            crumb(&inp);
+            let got = sgd_impl(&p.e, &p.d, hs, &p.x0, kk);
+            judge("sgd", &got, &traj, kk, &inp, &mut out);
+            if kk == k {
+                // determinism, also across a reused optimiser (the tape is owned by the optimiser)
+                let o = SGD::new(hs.0, hs.1, hs.2);
+                let a1 = catch(|| o.optimize(|pp, dd| objective(&p.e, pp, dd), &p.x0, &dr, kk).v);
+                let a2 = catch(|| o.optimize(|pp, dd| objective(&p.e, pp, dd), &p.x0, &dr, kk).v);
+                if let (Ok(a), Ok(c), Ok(g)) = (&a1, &a2, &got) { if !same_bits(a, c) || !same_bits(a, g) { out.push(Finding { class: "sgd:nondeterministic".into(), what: "identical calls (fresh and reused optimiser) returned different parameters".into(), input: input.clone() }); } }
+            }
+        }
+        if out.len() > 40 { break; }
+    }
+
+    // Levenberg-Marquardt
+    let nlm = if thorough { 1200 } else { 150 };
+    for it in 0..nlm {
+        let (e, d, x0, tag) = lm_problem(&mut r, if it % 6 == 0 { 200 } else { 40 });
+        let (xs, ys) = (&d[0], &d[1]); let (n, p) = (xs.len(), x0.len());
+        let hp = if it % 3 == 0 { (1e-6, 1e-6, 1e-2) } else { (*r.pick(&[1e-6, 1e-9]), *r.pick(&[1e-6, 1e-10]), *r.pick(&[1e-2, 1e-3, 1.0])) };
+        let k = if it % 2 == 0 { 200 } else { 1 + r.below(30) as usize };
+        let input = format!("model={} xs={} ys={} start={} LM::new({:e}, {:e}, {:e}) maxsteps={}", etm(&e).to_string(), json_floats(xs), json_floats(ys), json_floats(&x0), hp.0, hp.1, hp.2, k);
+        tried += 1;
+        crumb(&input);
+        let got = lm_impl(&e, &d, hp, &x0, k);
+        let v = match got { Ok(v) => v, Err(m) => { out.push(Finding { class: "lm:panics".into(), what: format!("LM panicked on a well-formed problem: {}", m), input }); continue; } };
+        let (popt, cov) = (&v[..p], &v[p..]);
+        let (r0, r1) = (rss(&e, xs, ys, &x0), rss(&e, xs, ys, popt));
+        // (a) never a larger residual sum of squares than the start (1e-9 relative slack for the two summation orders)
+        if !(r1 <= r0 * (1.0 + 1e-9) + 1e-300) && r0.is_finite() {
+            out.push(Finding { class: if r1.is_nan() { "lm:returns-nan-parameters".into() } else { "lm:rss-increased".into() }, what: format!("RSS at the start {:e}, at the returned parameters {:?}: {:e}", r0, popt, r1), input: input.clone() });
+        }
+        if popt.iter().any(|x| !x.is_finite()) { continue; }
+        // (b) covariance = rss/(n-p) (J^T J)^-1 at the returned point, J by forward-mode differentiation
+        if n > p && k >= 1 {
+            let mut jtj = vec![0.0; p * p];
+            for &x in xs.iter() { let (_, g) = dual(&e, popt, &[&[x]]); for i in 0..p { for j in 0..p { jtj[i * p + j] += g[i] * g[j]; } } }
+            if let Some(ji) = inv_ref(&jtj, p) {
+                let cond = jtj.iter().fold(0.0f64, |a, x| a.max(x.abs())) * ji.iter().fold(0.0f64, |a, x| a.max(x.abs()));
+                // (a residual at rounding level makes rss itself ill-conditioned: compare only above it)
+                let ysq: f64 = ys.iter().map(|y| y * y).sum();
+                if cond < 1e6 && ji.iter().all(|x| x.is_finite()) && r1.is_finite() && r1 > 1e-12 * ysq {
+                    let s2 = r1 / (n - p) as f64;
+                    let scale = ji.iter().fold(0.0f64, |a, x| a.max(x.abs())) * s2;
+                    let bad = (0..p * p).any(|i| !((cov[i] - s2 * ji[i]).abs() <= (1e-9 * cond + 1e-6) * scale + 1e-300));
+                    if bad { out.push(Finding { class: "lm:covariance".into(), what: format!("covariance {:?}, s^2 (J^T J)^-1 at the returned point = {:?}", cov, ji.iter().map(|x| x * s2).collect::<Vec<_>>()), input: input.clone() }); }
+                }
+            }
+        }
+        // (c) models linear in the parameters: the least-squares solution (normal equations) is reached
+        if (tag == "lm-linear" || tag == "lm-quadratic-in-x" || tag == "lm-constant") && k == 200 && it % 3 == 0 {
+            tried += 1;
+            // design matrix = gradient of the model wrt the parameters (constant in p)
+            let rows: Vec<Vec<f64>> = xs.iter().map(|&x| dual(&e, &vec![0.0; p], &[&[x]]).1).collect();
+            let mut ata = vec![0.0; p * p]; let mut aty = vec![0.0; p];
+            for (row, &y) in rows.iter().zip(ys) { for i in 0..p { aty[i] += row[i] * y; for j in 0..p { ata[i * p + j] += row[i] * row[j]; } } }
+            if let Some(ai) = inv_ref(&ata, p) {
+                let sol: Vec<f64> = (0..p).map(|i| (0..p).map(|j| ai[i * p + j] * aty[j]).sum()).collect();
+                let rs = rss(&e, xs, ys, &sol);
+                // the returned point must be (nearly) as good as the least-squares solution
+                if !(r1 <= rs + 1e-6 * (1.0 + rs) ) {
+                    out.push(Finding { class: "lm:linear-model-not-solved".into(), what: format!("returned {:?} (RSS {:e}); the least-squares solution is {:?} (RSS {:e})", popt, r1, sol, rs), input: input.clone() });
+                }
+            }
+        }
+        if out.len() > 60 { break; }
+    }
+    (tried, out)
+}
